@@ -1,11 +1,11 @@
 #!/bin/bash
 # usage: tools/seedintake.sh <ID> ...   — verifies /tmp/seed/<ID>/out/{A,B} and copies verified ones to /verif/seeded/<ID>-<X>/
 cd "$(dirname "$0")/.."
-for id in "$@"; do for x in A B; do
-  src=/tmp/seed/$id/out/$x
+for id in "$@"; do for x in ${SEEDVARS:-A B}; do
+  src=${SEEDBASE:-/tmp/seed}/$id/out/$x
   [ -f "$src/patch.diff" ] || { echo "$id-$x: no patch"; continue; }
-  if tools/seedverify.sh "$src" > /tmp/seed/$id/out/$x.verify.log 2>&1; then
+  if tools/seedverify.sh "$src" > ${SEEDBASE:-/tmp/seed}/$id/out/$x.verify.log 2>&1; then
     dst=seeded/$id-$x; rm -rf "$dst"; mkdir -p "$dst"; cp -r "$src/patch.diff" "$src/meta.json" "$dst/"; [ -d "$src/demo" ] && cp -r "$src/demo" "$dst/"
     echo "$id-$x VERIFIED -> $dst"
-  else echo "$id-$x NOT-VERIFIED: $(grep -E 'demo_without|patch does not' /tmp/seed/$id/out/$x.verify.log | tail -1)"; fi
+  else echo "$id-$x NOT-VERIFIED: $(grep -E 'demo_without|patch does not' ${SEEDBASE:-/tmp/seed}/$id/out/$x.verify.log | tail -1)"; fi
 done; done
